@@ -204,7 +204,9 @@ func (m ClientState) VerifyPacketCleanCommitment(
 		)
 	}
 	constructor := NewProofKeyConstructor(sourceChain, destChain, sequence)
-	return verifyMerkleProof(ethProof, consensusState, m.ContractAddress, sdk.Uint64ToBigEndian(sequence), constructor.GetCleanPacketCommitmentProofKey())
+	// the contract stores the sequence as a 32-byte storage word
+	cleanValue := common.LeftPadBytes(sdk.Uint64ToBigEndian(sequence), 32)
+	return verifyMerkleProof(ethProof, consensusState, m.ContractAddress, cleanValue, constructor.GetCleanPacketCommitmentProofKey())
 }
 
 // produceVerificationArgs performs the basic checks on the arguments that are
